@@ -11,9 +11,11 @@ mod c05;
 mod c06;
 mod c07;
 mod c08;
+mod c08l;
 mod c09;
 mod c10;
 mod c11;
+mod c11s;
 mod c14;
 mod c15;
 mod c15_repro;
@@ -51,10 +53,13 @@ fn main() {
         "c08-mr" => c08::run_mr(&rest),
         "c08-ident" => c08::run_ident(&rest),
         "c08-restart" => c08::run_restart(&rest),
+        "c08l" => c08l::run(&rest),
+        "c08l-ranks" => c08l::run_ranks(),
         "c09" => c09::run(&rest),
         "rt-ranks" => c09::run_ranks(),
         "c10" => c10::run(&rest),
         "c11" => c11::run(&rest),
+        "c11s" => c11s::run(&rest),
         "c10-gap" => c10::run_gap(&rest),
         "c10-mkcrash" => c10::run_mkcrash(&rest),
         "c10-reopen" => c10::run_reopen(&rest),
